@@ -35,6 +35,8 @@ open EmitModel EmitModel.Props EmitModel.Assoc
 def val? : Sexp → Option Val
   | .list [.atom "i", n] => n.int?.map Val.int
   | .list [.atom "s", s] => s.str?.map Val.str
+  -- `Value::null()` (a captured `None`): a value like any other, it casts to nothing
+  | .list [.atom "n", .atom "0"] => some (.tok "null" 0)
   | _ => none
 
 def entry? : Sexp → Option (String × Val)
